@@ -103,12 +103,13 @@ type outageStep struct {
 
 type outageObs struct {
 	Backend string       `json:"pinned_tcp_backend"`
+	Event   string       `json:"event"` // what happens between the phases "pinned" and "after"
 	Steps   []outageStep `json:"steps"`
 }
 
 func (o outageObs) String() string {
 	var sb strings.Builder
-	fmt.Fprintf(&sb, "dialog pinned to the TCP backend %s;", o.Backend)
+	fmt.Fprintf(&sb, "dialog pinned to the TCP backend %s; event: %s;", o.Backend, o.Event)
 	for _, s := range o.Steps {
 		var at []string
 		for _, a := range s.Arrived {
@@ -134,6 +135,7 @@ func (s *stdSvc) backendOutage(rt *rapid.T, test string) (obs outageObs, ok bool
 	l := s.in.cfg.Listens[0]
 	bip, bport := s.ip(33), 5080
 	obs.Backend = fmt.Sprintf("%s:%d", bip, bport)
+	obs.Event = "the backend goes down (listener closed, connections reset) and comes back"
 	ua := rapid.IntRange(0, 3).Draw(rt, "ua")
 	g := stdIngress{UA: ua, Entry: 0, TCP: false}
 	send, srcIP, _, e := s.sender(g)
@@ -276,13 +278,13 @@ func outageSticky(o outageObs) string {
 				atPinned++
 				continue
 			}
-			return fmt.Sprintf("%s, sent %s the outage of its backend, was delivered to %s - a request of a pinned dialog goes to the backend that answered the dialog and to no other; history: %s", st.Request, map[string]string{"pinned": "before", "during": "during", "after": "after"}[st.Phase], a.At, o)
+			return fmt.Sprintf("%s [phase: %s] was delivered to %s - a request of a pinned dialog goes to the backend that answered the dialog and to no other; history: %s", st.Request, st.Phase, a.At, o)
 		}
 		if atPinned > 1 {
 			return fmt.Sprintf("%s was delivered %d times to the pinned backend; history: %s", st.Request, atPinned, o)
 		}
 		if st.Phase != "during" && atPinned != 1 {
-			return fmt.Sprintf("%s, sent %s the outage of the pinned backend (which was listening and accepting connections at that moment), reached nobody - the pin is to be honoured for the dialog's lifetime and the backend was reachable; history: %s", st.Request, map[string]string{"pinned": "before", "after": "after"}[st.Phase], o)
+			return fmt.Sprintf("%s [phase: %s; the pinned backend was listening and accepting connections at that moment] reached nobody - the pin is to be honoured for the dialog's lifetime and the backend was reachable; history: %s", st.Request, st.Phase, o)
 		}
 	}
 	return ""
@@ -533,4 +535,125 @@ func hopTwins(o hopObs) string {
 		}
 	}
 	return ""
+}
+
+// ---- the address of a pinned backend leaves the resolved pool (and joins again) ----
+
+// poolFlap plays, on a DynPool service: dialogs are opened until one lands on a
+// member X of the resolved TCP pool, which answers 200 with a To-tag (the pin);
+// an in-dialog request follows the pin; the backend name then resolves without
+// X's address - and, drawn, with it again; unrelated requests pass; 1-3
+// in-dialog requests follow. X itself never goes away: it listens and accepts
+// all the time. The observations use the types of the outage history.
+func (s *stdSvc) poolFlap(rt *rapid.T, test string) (obs outageObs, ok bool, err error) {
+	l := s.in.cfg.Listens[0]
+	ua := rapid.IntRange(0, 3).Draw(rt, "ua")
+	g := stdIngress{UA: ua, Entry: 0, TCP: false}
+	send, srcIP, _, e := s.sender(g)
+	if e != nil {
+		return obs, false, e
+	}
+	uaIP := s.uas[ua].ip
+	mk := func(method, id string, cseq int, toTag string) []byte {
+		to := "<sip:svc@nomatch.example>"
+		if toTag != "" {
+			to += ";tag=" + toTag
+		}
+		return []byte(fmt.Sprintf("%s sip:svc.test SIP/2.0\r\nVia: SIP/2.0/UDP %s:5060;branch=z9hG4bK%s-%d\r\nMax-Forwards: 70\r\nFrom: <sip:a@a.example>;tag=f%s\r\nTo: %s\r\nCall-ID: %s\r\nCSeq: %d %s\r\nContent-Length: 0\r\n\r\n", method, uaIP, id, cseq, id, to, id, cseq, method))
+	}
+	one := func(phase, what string, wire []byte, min int) ([]labRx, error) {
+		s.model.learnRequest(s.transportOf(g), srcIP, &AMsg{IsReq: true, Hdrs: []AHdr{{Kind: hVia, Vias: []AVia{{Host: uaIP}}}}})
+		s.in.expect(wire)
+		if err := send(wire); err != nil {
+			return nil, err
+		}
+		rs, err := s.in.settle(send, min)
+		if err != nil {
+			return nil, err
+		}
+		got := labMessages(rs)
+		st := outageStep{Phase: phase, Request: what, SentVias: 1}
+		for _, r := range got {
+			a := outageArrival{At: r.where(), TCP: r.tcp != nil, Vias: r.msg.Entries(hVia), RRs: r.msg.Entries(hRR)}
+			if r.ep != nil {
+				a.IP, a.Port = r.ep.ip, r.ep.port
+			}
+			st.Arrived = append(st.Arrived, a)
+		}
+		obs.Steps = append(obs.Steps, st)
+		V.Journal(test, obs)
+		return got, nil
+	}
+	s.resolved(s.poolIP...)
+	var id string
+	var inv labRx
+	for try := 0; try < len(l.Backends)+len(s.poolIP)+2 && id == ""; try++ {
+		cand := s.nextID("flap-")
+		got, err := one("setup", "INVITE "+cand, mk("INVITE", cand, 1, ""), 1)
+		if err != nil {
+			return obs, false, err
+		}
+		if len(got) != 1 {
+			return obs, false, nil
+		}
+		if got[0].tcp != nil && got[0].ep != nil && (got[0].ep.ip == s.poolIP[0] || got[0].ep.ip == s.poolIP[1]) {
+			id, inv = cand, got[0]
+		}
+	}
+	obs.Steps = nil
+	if id == "" {
+		return obs, false, nil
+	}
+	x := inv.ep.ip
+	obs.Backend = fmt.Sprintf("%s:%d", x, 5080)
+	resp := buildResponse(inv.msg, 200, "OK", "t"+id, "")
+	s.in.expect(resp)
+	if err := inv.tcp.send(resp); err != nil {
+		return obs, false, fmt.Errorf("backend could not answer: %v", err)
+	}
+	rs, err := s.in.settle(inv.tcp.send, 1)
+	if err != nil {
+		return obs, false, err
+	}
+	if got := labMessages(rs); len(got) != 1 || got[0].ep != s.uas[ua] {
+		return obs, false, nil
+	}
+	cseq := 1
+	inDialog := func(phase string) error {
+		cseq++
+		m := rapid.SampledFrom([]string{"INFO", "INFO", "UPDATE", "MESSAGE", "INVITE", "BYE"}).Draw(rt, "in-dialog method")
+		_, err := one(phase, fmt.Sprintf("%s (in-dialog, CSeq %d)", m, cseq), mk(m, id, cseq, "t"+id), 1)
+		return err
+	}
+	if err := inDialog("pinned"); err != nil {
+		return obs, false, err
+	}
+	var others []string
+	for _, a := range s.poolIP {
+		if a != x {
+			others = append(others, a)
+		}
+	}
+	s.resolved(others...)
+	rejoin := rapid.Bool().Draw(rt, "the address joins the pool again")
+	if rejoin {
+		s.resolved(s.poolIP...)
+	}
+	obs.Event = map[bool]string{true: "the backend's address leaves the resolved pool and joins it again (the backend itself listens all the time)", false: "the backend's address leaves the resolved pool (the backend itself listens all the time)"}[rejoin]
+	for i, k := 0, rapid.IntRange(0, 3).Draw(rt, "unrelated requests"); i < k; i++ {
+		oid := s.nextID("oth-")
+		s.in.expect(mk("OPTIONS", oid, 1, ""))
+		if err := send(mk("OPTIONS", oid, 1, "")); err != nil {
+			return obs, false, err
+		}
+		if _, err := s.in.settle(send, 1); err != nil {
+			return obs, false, err
+		}
+	}
+	for i, k := 0, rapid.IntRange(1, 3).Draw(rt, "in-dialog requests afterwards"); i < k; i++ {
+		if err := inDialog("after"); err != nil {
+			return obs, false, err
+		}
+	}
+	return obs, true, nil
 }
